@@ -186,7 +186,14 @@ def clause_d(ctx, P):
     ctx.ob("C04d.cache-before-query", f.name, ok and ok2, f.loc(), "a new browse replays the cache before the first query is sent")
 
 
+def clause_e(ctx, P):
+    """a record set that contains a PTR of a browsed type is kept whatever other names come with it"""
+    from .c20 import is_for_us_rule
+    is_for_us_rule(ctx, P, "C04e")
+
+
 def run(ctx, P):
+    clause_e(ctx, P)
     clause_a(ctx, P)
     clause_b(ctx, P)
     clause_c(ctx, P)
